@@ -25,9 +25,11 @@ ASSUMPTIONS = [
 
 @st.composite
 def strategy_(draw, tier):
-    big = tier == "thorough"
+    big = tier == "thorough" or draw(st.integers(0, 9)) == 0        # (a tenth of the quick cases are larger than any sketch size k + 10)
     n = draw(st.integers(4, 40 if big else 13))
     m = draw(st.integers(4, 24 if big else 10))
+    if big and tier != "thorough":
+        n, m = max(n, 18), max(m, 16)
     kind = draw(st.sampled_from(["generic", "generic", "eighths", "lowrank", "dup", "nearlowrank", "narrowint"]))
     if kind == "nearlowrank":
         r0 = draw(st.integers(1, max(1, min(n, m) - 2)))
@@ -48,6 +50,11 @@ def strategy_(draw, tier):
     cls = draw(st.sampled_from(["CUR", "PCovCUR"]))
     direction = draw(st.sampled_from(["feature", "sample"]))
     k = draw(st.integers(1, min(3, min(n, m) - 1)))
+    N_items = n if direction == "sample" else m
+    if cls == "PCovCUR" and draw(st.integers(0, 7)) == 0:
+        # the targets add rank to the PCovR-modified matrix: k may reach the smaller dimension of X (it only has to stay below the
+        # number of items)
+        k = min(min(n, m), N_items - 1, 6)
     r = gen.numerical_rank(X, 1e-9)
     hi = max(1, r - k)
     nsel = draw(st.integers(max(1, hi // 2) if draw(st.booleans()) else 1, hi))
@@ -274,7 +281,7 @@ def check(case, ctx):
                 dual.fit(X.T.copy(), None)
             ctx.equal("duality", np.asarray(dual.selected_idx_), np.asarray(idx), "CUR(%s) on X^T vs CUR(%s) on X" % (other, direction))
             ctx.count("duality_checked")
-        elif prm["mixing"] == 1.0:
+        elif prm["mixing"] == 1.0 and prm["k"] < min(X.shape):       # (plain CUR needs k below both dimensions)
             p2 = {k: v for k, v in prm.items() if k != "mixing"}
             cur = S.make("CUR", direction, n_to_select=case["nsel"], **p2)
             with ctx.lib("cur-fit"):
